@@ -212,6 +212,29 @@ def closest_cmd_layer(ctx, cm, gen, n_inputs=3):
                                                                 "query": qb.decode(), "target": tb.decode(), "with_%s" % spelled: [alt[0], alt[2].decode("latin1")[:600]],
                                                                 "with_%s" % measure: [base[0], base[2].decode("latin1")[:600]]})
                             return runs
+        # -d D is "distance <= D" on the float64 the text D denotes: targets exactly AT the threshold, for thresholds that single
+        # precision would round down (0.01, 0.7, 0.003) and up (0.1, 0.2) - 100 resolved columns, k differences = distance k/100
+        q100 = "ACGT" * 25
+        def with_diffs(kd):
+            t = list(q100)
+            for j in range(kd):
+                t[j] = "A" if t[j] != "A" else "C"
+            return "".join(t)
+        qb = gen.layout(rng, [("q", q100)], "plain")
+        tb = gen.layout(rng, [("t%d" % kd, with_diffs(kd)) for kd in (2, 1, 0, 3, 10, 20, 70)], "plain")
+        qp, tp = os.path.join(tmp, "q100.fasta"), os.path.join(tmp, "t100.fasta")
+        open(qp, "wb").write(qb)
+        open(tp, "wb").write(tb)
+        for d in ("0.01", "0.7", "0.1", "0.2", "0.03", "0.003", "0"):
+            for extra_args, libopts in ((["-d", d, "--table"], {"n": 0, "maxdist": float(d), "table": True}), (["-n", "3", "-d", d], {"n": 3, "maxdist": float(d)})):
+                base = cm.run_binary(binp, ["closest", "--query", qp, "--target", tp, "-m", "raw"] + extra_args)
+                runs += 1
+                lib = cm.go_run([dict({"id": 0, "op": "closest", "query": cm.b64(qb), "target": cm.b64(tb), "measure": "raw", "table": False, "threads": 1}, **libopts)], ctx.log)[0]
+                if base[0] != "ok" or lib["status"] != "ok" or base[2] != cm.unb64(lib["out"]):
+                    cm.violation(ctx, "failing-input", {"what": "gofasta closest -m raw %s on targets at distances 0, 0.01, 0.02, 0.03, 0.1, 0.2, 0.7: the binary's output differs from the library entry point's" % " ".join(extra_args),
+                                                        "query": qb.decode(), "target": tb.decode(), "binary": [base[0], base[2].decode("latin1")[:600]],
+                                                        "library": [lib["status"], cm.unb64(lib.get("out", "")).decode("latin1")[:600]]})
+                    return runs
     finally:
         shutil.rmtree(tmp, ignore_errors=True)
     return runs
